@@ -42,7 +42,7 @@ var trFuncs = [][2]string{
 var trFuncsScan = [][2]string{
 	{"", "isFramesElidedLine"}, {"", "trimLeftSpace"}, {"", "atou"},
 	{"", "hasPrefix"}, {"", "hasSrcPrefix"}, {"", "isRootedIn"},
-	{"Call", "updateLocations"},
+	{"Call", "updateLocations"}, {"Stack", "updateLocations"}, {"Signature", "updateLocations"},
 }
 
 func trName(recv, fn string) string {
@@ -123,6 +123,7 @@ type translator struct {
 	stVars   []trLocal
 	impure   int // counts binds emitted (purity probe)
 	funcs    map[string]bool
+	mutating map[string]bool // translated methods that assign through their pointer receiver
 	recvMut  string // name of a pointer receiver the function assigns through ("" if none): it is
 	// threaded as a local and returned together with the result
 	depth int
@@ -593,6 +594,12 @@ func (t *translator) bind(e ast.Expr, k func(string) string) string {
 			rec = func(i int) string {
 				if i == len(args) {
 					v := t.fresh()
+					if t.mutating[name] {
+						// the callee assigns through its receiver: it returns (receiver afterwards, result);
+						// the receiver expression is written back before anything else happens
+						wb := t.assignVal(x, sel.X, nil, v+".1", func() string { return k(v + ".2") })
+						return fmt.Sprintf("(E.%s %s).bind fun %s =>\n%s%s", name, strings.Join(terms, " "), v, t.ind(), wb)
+					}
 					return fmt.Sprintf("(E.%s %s).bind fun %s =>\n%s%s", name, strings.Join(terms, " "), v, t.ind(), k(v))
 				}
 				return t.bind(args[i], func(s string) string {
@@ -616,6 +623,23 @@ func (t *translator) bind(e ast.Expr, k func(string) string) string {
 	case *ast.BinaryExpr:
 		switch x.Op {
 		case token.LAND, token.LOR:
+			if r, ok := t.pure(x.Y); ok {
+				// the right operand has no effect and cannot panic: evaluating it eagerly is the same
+				// (and keeps what the left operand writes back in scope)
+				return t.bind(x.X, func(l string) string { return k(t.binop(x, l, r)) })
+			}
+			hasMut := false
+			ast.Inspect(x, func(n ast.Node) bool {
+				if c, ok := n.(*ast.CallExpr); ok {
+					if sel, ok := c.Fun.(*ast.SelectorExpr); ok && t.mutating[structName(t.typeOf(sel.X))+"_"+sel.Sel.Name] {
+						hasMut = true
+					}
+				}
+				return true
+			})
+			if hasMut {
+				t.fail(x, "call of a method that assigns through its receiver inside a short-circuit expression whose right operand is not pure")
+			}
 			// short circuit: the right operand is only evaluated when needed
 			v := t.fresh()
 			m := t.boolM(x)
@@ -776,6 +800,12 @@ func (t *translator) assigned(n ast.Node, outer []trLocal) []trLocal {
 			}
 		case *ast.IncDecStmt:
 			set[root(s.X)] = true
+		case *ast.CallExpr:
+			if sel, ok := s.Fun.(*ast.SelectorExpr); ok {
+				if t.mutating[structName(t.typeOf(sel.X))+"_"+sel.Sel.Name] {
+					set[root(sel.X)] = true
+				}
+			}
 		case *ast.RangeStmt:
 			if s.Tok == token.DEFINE {
 				if id, ok := s.Key.(*ast.Ident); ok {
@@ -1180,6 +1210,11 @@ func (t *translator) pureStmts(list []ast.Stmt, result string) string {
 
 // assign: lhs = rhs where lhs is a local or a field/index path rooted in one.
 func (t *translator) assign(n ast.Node, lhs, rhs ast.Expr, cont func() string) string {
+	return t.assignVal(n, lhs, rhs, "", cont)
+}
+
+// assignVal: lhs = rhs, or lhs = the Lean term val when rhs is nil.
+func (t *translator) assignVal(n ast.Node, lhs, rhs ast.Expr, val string, cont func() string) string {
 	type step struct {
 		field string // field name, or "" for an index
 		sn    string // struct name of the container (field steps)
@@ -1220,7 +1255,13 @@ func (t *translator) assign(n ast.Node, lhs, rhs ast.Expr, cont func() string) s
 	if !isLocal {
 		t.fail(n, "assignment through %s, which is not a local variable of the function", root.Name)
 	}
-	return t.bind(rhs, func(v string) string {
+	withVal := func(k func(string) string) string {
+		if rhs == nil {
+			return k(val)
+		}
+		return t.bind(rhs, k)
+	}
+	return withVal(func(v string) string {
 		var upd func(cur string, path []step, k func(string) string) string
 		upd = func(cur string, path []step, k func(string) string) string {
 			if len(path) == 0 {
@@ -1362,6 +1403,72 @@ func (p *pkgInfo) translateGroup(ns, from string, trFuncs [][2]string, withClosu
 	for _, f := range trFuncs {
 		funcs[trName(f[0], f[1])] = true
 	}
+	// which methods assign through their pointer receiver, directly or by calling one that does on a
+	// path rooted in the receiver (fixpoint)
+	mutating := map[string]bool{}
+	for changed := true; changed; {
+		changed = false
+		for _, f := range trFuncs {
+			name := trName(f[0], f[1])
+			fd := p.funcDecl(f[0], f[1])
+			if mutating[name] || fd == nil || fd.Recv == nil || len(fd.Recv.List) != 1 || len(fd.Recv.List[0].Names) != 1 {
+				continue
+			}
+			if _, isPtr := fd.Recv.List[0].Type.(*ast.StarExpr); !isPtr {
+				continue
+			}
+			rn := fd.Recv.List[0].Names[0].Name
+			rootIs := func(l ast.Expr) bool {
+				for {
+					switch y := l.(type) {
+					case *ast.SelectorExpr:
+						l = y.X
+						continue
+					case *ast.IndexExpr:
+						l = y.X
+						continue
+					case *ast.StarExpr:
+						l = y.X
+						continue
+					case *ast.ParenExpr:
+						l = y.X
+						continue
+					}
+					break
+				}
+				id, ok := l.(*ast.Ident)
+				return ok && id.Name == rn
+			}
+			writes := false
+			ast.Inspect(fd.Body, func(n ast.Node) bool {
+				switch x := n.(type) {
+				case *ast.AssignStmt:
+					if x.Tok != token.DEFINE {
+						for _, l := range x.Lhs {
+							if _, plain := l.(*ast.Ident); !plain && rootIs(l) {
+								writes = true
+							}
+						}
+					}
+				case *ast.IncDecStmt:
+					if _, plain := x.X.(*ast.Ident); !plain && rootIs(x.X) {
+						writes = true
+					}
+				case *ast.CallExpr:
+					if sel, ok := x.Fun.(*ast.SelectorExpr); ok && rootIs(sel.X) {
+						if tv, ok := p.info.Types[sel.X]; ok && mutating[structName(tv.Type)+"_"+sel.Sel.Name] {
+							writes = true
+						}
+					}
+				}
+				return true
+			})
+			if writes {
+				mutating[name] = true
+				changed = true
+			}
+		}
+	}
 	var sb strings.Builder
 	fmt.Fprintf(&sb, "/- GENERATED by /verif/extract (translate.go) from %s — do not edit. -/\nimport PP.Go.Prelude\nimport PP.Model.Aggregate\nimport PP.Model.Roots\nset_option linter.unusedVariables false\nnamespace %s\nopen PP PP.Go\n\n", from, ns)
 	type sig struct{ name, typ string }
@@ -1375,7 +1482,7 @@ func (p *pkgInfo) translateGroup(ns, from string, trFuncs [][2]string, withClosu
 			failed = append(failed, fmt.Sprintf("%s.%s: function not found", f[0], f[1]))
 			continue
 		}
-		t := &translator{p: p, fn: name, funcs: funcs}
+		t := &translator{p: p, fn: name, funcs: funcs, mutating: mutating}
 		func() {
 			defer func() {
 				if r := recover(); r != nil {
@@ -1423,47 +1530,11 @@ func (p *pkgInfo) translateGroup(ns, from string, trFuncs [][2]string, withClosu
 				t.ret = "(" + strings.Join(rts, " × ") + ")"
 			}
 			// a pointer receiver the body assigns through becomes a threaded local, returned with the result
-			if fd.Recv != nil && len(fd.Recv.List) == 1 && len(fd.Recv.List[0].Names) == 1 {
-				if _, isPtr := fd.Recv.List[0].Type.(*ast.StarExpr); isPtr {
-					rn := fd.Recv.List[0].Names[0].Name
-					writes := false
-					ast.Inspect(fd.Body, func(n ast.Node) bool {
-						var lhs []ast.Expr
-						switch x := n.(type) {
-						case *ast.AssignStmt:
-							if x.Tok != token.DEFINE {
-								lhs = x.Lhs
-							}
-						case *ast.IncDecStmt:
-							lhs = []ast.Expr{x.X}
-						}
-						for _, l := range lhs {
-							for {
-								switch y := l.(type) {
-								case *ast.SelectorExpr:
-									l = y.X
-									continue
-								case *ast.IndexExpr:
-									l = y.X
-									continue
-								case *ast.StarExpr:
-									l = y.X
-									continue
-								}
-								break
-							}
-							if id, ok := l.(*ast.Ident); ok && id.Name == rn {
-								writes = true
-							}
-						}
-						return true
-					})
-					if writes {
-						t.recvMut = lid(rn)
-						t.scope = append(t.scope, trLocal{lid(rn), t.params[0].typ})
-						t.ret = "(" + t.params[0].typ + " × " + t.ret + ")"
-					}
-				}
+			if mutating[name] {
+				rn := fd.Recv.List[0].Names[0].Name
+				t.recvMut = lid(rn)
+				t.scope = append(t.scope, trLocal{lid(rn), t.params[0].typ})
+				t.ret = "(" + t.params[0].typ + " × " + t.ret + ")"
 			}
 			body := t.stmts(fd.Body.List, func() string { t.fail(fd, "function can fall off its end"); return "" })
 			var bind []string
@@ -1506,7 +1577,7 @@ func (p *pkgInfo) translateGroup(ns, from string, trFuncs [][2]string, withClosu
 			}
 			return true
 		})
-		t := &translator{p: p, fn: name, funcs: funcs, ret: "Bool"}
+		t := &translator{p: p, fn: name, funcs: funcs, ret: "Bool", mutating: mutating}
 		defer func() {
 			if r := recover(); r != nil {
 				if tf, ok := r.(trFail); ok {
